@@ -2204,7 +2204,7 @@ get_make_property(CPPMakeProperty *make_property, CPPStructType *struct_type, CP
     }
   }
 
-  VERIF_EVENT("{\"e\":\"UpdateElement\",\"i\":" << index << "," << verif_idb::element_json(iproperty) << "}");
+  VERIF_BUILD_EVENT("{\"e\":\"UpdateElement\",\"i\":" << index << "," << verif_idb::element_json(iproperty) << "}");
   return index;
 }
 
@@ -2376,7 +2376,7 @@ get_type(CPPType *type, bool global) {
       if (global) {
         itype._flags |= InterrogateType::F_global;
       }
-      VERIF_EVENT("{\"e\":\"UpdateType\",\"i\":" << index << ",\"why\":\"global\"," << verif_idb::type_json(itype) << "}");
+      VERIF_BUILD_EVENT("{\"e\":\"UpdateType\",\"i\":" << index << ",\"why\":\"global\"," << verif_idb::type_json(itype) << "}");
 
       if ((itype._flags & InterrogateType::F_fully_defined) != 0) {
         return index;
@@ -2513,7 +2513,7 @@ get_type(CPPType *type, bool global) {
 
 #ifdef INTERROGATE_VERIF_TRACE
   if (index != 0) {
-    VERIF_EVENT("{\"e\":\"UpdateType\",\"i\":" << index << ",\"why\":\"define\"," << verif_idb::type_json(itype) << "}");
+    VERIF_BUILD_EVENT("{\"e\":\"UpdateType\",\"i\":" << index << ",\"why\":\"define\"," << verif_idb::type_json(itype) << "}");
   }
 #endif  // INTERROGATE_VERIF_TRACE
   return index;
